@@ -49,6 +49,7 @@ struct Node
     bool created_by_run = false;
     bool readonly = false; // mode 0444: opening for writing fails with EACCES
     std::string link;      // non-empty: a symbolic link with this target (absolute, or relative to its directory)
+    long long mtime = 1740000000; // simulated modification time (what stat reports); files of the corpus are older than every run
 };
 
 enum Kind
@@ -100,6 +101,8 @@ struct Sim
     bool active = false;
     std::vector<FaultSpec> faults;
     long yank_at = -1;
+    long kill_at = -1; // the process dies (SIGKILL, power loss) when it makes call number kill_at + 1
+    bool killed = false;
     long diskfull = -1;
     long total_written = 0;
     long counts[K_N] = {0};
@@ -272,8 +275,11 @@ bool under_condition(const std::string& abs)
 }
 
 // Returns the fault to apply to this call (or nullptr) and records the call.
+void die_here(); // the simulated process ends at this very call: nothing is flushed, no destructor runs
+extern volatile sig_atomic_t g_in_run;
 FaultSpec* on_call(int kind, const std::string& path, long len = 0)
 {
+    if(g.kill_at >= 0 && g.call_index >= g.kill_at && g_in_run) die_here();
     long ord = g.counts[kind]++;
     g.call_index++;
     g.trace.push_back({kind, path, len});
@@ -323,6 +329,7 @@ ssize_t sim_write(int fd, OpenFile& of, const char* data, size_t len)
         if(k)
         {
             g.fs[of.path].data.append(data, k);
+            g.fs[of.path].mtime = g.now;
             raw_write(fd, data, k);
             g.total_written += (long)k;
         }
@@ -449,6 +456,7 @@ static int sim_open_fd(const std::string& abs, bool wr, bool trunc, bool append)
         }
         Node& n = g.fs[abs];
         if(it == g.fs.end()) n.created_by_run = true;
+        if(it == g.fs.end() || trunc) n.mtime = g.now;
         if(trunc) n.data.clear();
     }
     else if(it == g.fs.end())
@@ -667,6 +675,7 @@ int mkdir(const char* path, mode_t mode)
     Node n;
     n.dir = true;
     n.created_by_run = true;
+    n.mtime = g.now;
     g.fs[abs] = n;
     return 0;
 }
@@ -711,6 +720,11 @@ static int sim_stat(const std::string& abs, struct stat* st)
     st->st_size = lnk ? (off_t)it->second.link.size() : dir ? 4096 : (off_t)it->second.data.size();
     st->st_ino = (ino_t)(sim::fnv1a(abs.data(), abs.size()) | 1);
     st->st_dev = 42;
+    if(abs != "/sim")
+    {
+        st->st_mtim.tv_sec = st->st_ctim.tv_sec = st->st_atim.tv_sec = (time_t)it->second.mtime;
+        if(g_in_run) sim::stats().count("probe.stat_reported_simulated_mtime");
+    }
     return 0;
 }
 
@@ -1123,6 +1137,15 @@ void restore_stdout()
 sigjmp_buf g_exit_jb;
 volatile int g_exit_code = 0;
 volatile sig_atomic_t g_in_run = 0;
+void die_here()
+{
+    // SIGKILL / power loss at this call: control leaves sbeppc without unwinding, so no stream is
+    // flushed and no destructor runs; what the calls made so far put on the medium is all there is
+    g.killed = true;
+    g_exit_code = 137;
+    g_in_run = 0;
+    siglongjmp(g_exit_jb, 1);
+}
 }
 
 // ---------------------------------------------------------- freed-memory seam
@@ -1321,6 +1344,8 @@ const char kFreshPattern[] = "\xCD\xCD\xCD\xCD\xCD\xCD\xCD\xCD";
 
 // The call into real code. Everything around it is simulator.
 RunOutcome run_sbeppc_here(const std::vector<std::string>& args, const std::vector<FaultSpec>& faults, long yank_at, long diskfull);
+long g_kill_next = -1; // set by the `kill` op: the next invocation dies at that call
+
 
 // ---------------------------------------------------------- process isolation
 // A real sbeppc invocation is a fresh process: function-local statics, caches and anything else with
@@ -1425,6 +1450,7 @@ RunOutcome run_sbeppc(const std::vector<std::string>& args, const std::vector<Fa
             s.num(kv.second.created_by_run);
             s.num(kv.second.readonly);
             s.str(kv.second.link);
+            s.num(kv.second.mtime);
         }
         s.num(g.cond_fired);
         s.num((long long)sim::stats().counters.size());
@@ -1510,6 +1536,7 @@ RunOutcome run_sbeppc(const std::vector<std::string>& args, const std::vector<Fa
         nd.created_by_run = d.num() != 0;
         nd.readonly = d.num() != 0;
         nd.link = d.str();
+        nd.mtime = d.num();
         fs[path] = nd;
     }
     g.cond_fired = (long)d.num();
@@ -1547,6 +1574,9 @@ RunOutcome run_sbeppc_here(const std::vector<std::string>& args, const std::vect
 
     g.faults = faults;
     g.yank_at = yank_at;
+    g.kill_at = g_kill_next;
+    g_kill_next = -1;
+    g.killed = false;
     g.diskfull = diskfull;
     g.total_written = 0;
     std::fill(std::begin(g.counts), std::end(g.counts), 0);
@@ -1588,7 +1618,9 @@ RunOutcome run_sbeppc_here(const std::vector<std::string>& args, const std::vect
     else
     {
         ro.rc = g_exit_code; // std::exit() from --help / --version
+        if(g.killed) ro.kind = "KILLED";
     }
+    g.kill_at = -1;
     set_budget_ms(0);
     QUARANTINE(on = 0);
     QUARANTINE(drain());
@@ -2618,6 +2650,8 @@ struct PendingRun
 {
     std::vector<FaultSpec> faults;
     long yank = -1, diskfull = -1;
+    long kill = -1, kill_mode = 0;
+    u64 kill_seed = 0;
     u64 heap = 0;
 };
 
@@ -2686,6 +2720,14 @@ Result exec_plan(const Plan& plan)
         }
         else if(n == "yank")
             pr.yank = op.arg(0);
+        else if(n == "kill")
+        {
+            // the next invocation dies at its call number arg0 + 1; arg1: 0 = the process is killed (whatever
+            // reached write() survives), 1 = power is lost (nothing was synced: arg2 seeds what survives)
+            pr.kill = op.arg(0);
+            pr.kill_mode = op.arg(1);
+            pr.kill_seed = op.uarg(2);
+        }
         else if(n == "diskfull")
             pr.diskfull = op.arg(0);
         else if(n == "dirseek")
@@ -2733,6 +2775,7 @@ Result exec_plan(const Plan& plan)
             const long outv = op.arg(0), how = op.arg(1);
             const Ref& ref = reference(schema, outv);
             sim::Rng r(op.uarg(2) + 1);
+            sim::Rng rt(op.uarg(2) + 7777);
             for(auto& kv : ref.files)
             {
                 if(r.chance(1, 3)) continue;
@@ -2780,6 +2823,13 @@ Result exec_plan(const Plan& plan)
                 case 1: fnode.data = kv.second.substr(0, kv.second.size() / 2); break;        // torn
                 case 2: fnode.data = "stale content of another schema\n"; break;
                 default: fnode.data = kv.second; break; // identical
+                }
+                {
+                    // when the leftover was written: before the schema file, together with it, after it, just now,
+                    // or in the future of the simulated clock (a copied tree, a clock that was set back)
+                    static const long long kWhen[] = {1730000000, 1740000000, 1745000000, 0, 2065000000};
+                    long long w = kWhen[rt.below(5)];
+                    fnode.mtime = w ? w : g.now;
                 }
                 g.fs[kv.first] = fnode;
             }
@@ -2931,8 +2981,87 @@ Result exec_plan(const Plan& plan)
                 if(deepest >= 5000) g_deep_nesting = true;
             }
             perturb_heap(pr.heap);
+            g_kill_next = pr.kill;
             RunOutcome ro = run_sbeppc(argv_variant(argv_v, schema, outv), pr.faults, pr.yank, pr.diskfull);
+            g_kill_next = -1;
             perturb_heap(0);
+            if(ro.kind == "KILLED")
+            {
+                // Crash and restart: the invocation ended without an exit status, so there is nothing to judge
+                // about it. What it had handed to the file system stays (process kill), or - power loss, nothing
+                // was ever synced - any part of that may be gone. The runs that follow in the history work on
+                // this directory and get the full oracle (exit 0 => every file complete and byte-identical).
+                sim::stats().count(pr.kill_mode ? "fault.fired.kill.power_loss" : "fault.fired.kill.process");
+                sim::stats().tuple(std::string("C20|") + schema + "|kill@" + std::to_string(pr.kill) + "|" + (pr.kill_mode ? "power" : "proc"));
+                if(pr.kill_mode)
+                {
+                    sim::Rng r(pr.kill_seed + 0x9e37);
+                    std::vector<std::string> touched;
+                    for(auto& kv : g.fs)
+                    {
+                        if(kv.second.dir || !kv.second.link.empty() || kv.first.rfind("/sim/in/", 0) == 0) continue;
+                        auto b = before.find(kv.first);
+                        if(b == before.end() || b->second != kv.second.data) touched.push_back(kv.first);
+                    }
+                    for(auto& path : touched)
+                    {
+                        Node& nd = g.fs[path];
+                        auto b = before.find(path);
+                        switch(r.below(6))
+                        {
+                        case 0: break; // made it to the medium
+                        case 1: nd.data.resize((size_t)r.below(nd.data.size() + 1)); break; // a prefix (often nothing at all)
+                        case 2: nd.data.clear(); break; // the classic zero-length file
+                        case 3:
+                            // the size was journalled, the blocks were not: a tail of zeros
+                            if(!nd.data.empty())
+                            {
+                                size_t from = (size_t)r.below(nd.data.size());
+                                std::fill(nd.data.begin() + (long)from, nd.data.end(), '\0');
+                            }
+                            break;
+                        case 4:
+                            // neither the truncation nor the new content: what was there before the run
+                            if(b != before.end())
+                                nd.data = b->second;
+                            else
+                                g.fs.erase(path);
+                            break;
+                        default:
+                            if(b == before.end()) g.fs.erase(path);
+                            break;
+                        }
+                    }
+                    // directories this run created and that are empty now may be gone as well
+                    for(bool again = true; again;)
+                    {
+                        again = false;
+                        for(auto it = g.fs.begin(); it != g.fs.end(); ++it)
+                        {
+                            if(!it->second.dir || !it->second.created_by_run) continue;
+                            bool has_child = false;
+                            for(auto& kv2 : g.fs)
+                                if(kv2.first.size() > it->first.size() && kv2.first.rfind(it->first + "/", 0) == 0) has_child = true;
+                            if(!has_child && r.chance(1, 2))
+                            {
+                                g.fs.erase(it);
+                                again = true;
+                                break;
+                            }
+                            it->second.created_by_run = false; // decided: it stays
+                        }
+                    }
+                }
+                fp.add((u64)ro.trace.size());
+                for(auto& kv : g.fs)
+                {
+                    fp.add(kv.first);
+                    fp.add(kv.second.data);
+                }
+                pr = PendingRun{};
+                continue;
+            }
+            if(pr.kill >= 0) sim::stats().count("fault.not_reached.kill");
             sim::stats().count("runs");
             sim::stats().count(ro.rc == 0 ? "runs.rc0" : "runs.rc_nonzero");
             if(!ro.hard.empty()) sim::stats().count("runs.with_hard_fault_fired");
@@ -3254,6 +3383,7 @@ Plan gen_c20(u64 seed, const std::string& tier)
     // swarm: which fault kinds are enabled in this plan
     const bool en_single = fl.chance(2, 3), en_yank = fl.chance(1, 4), en_full = fl.chance(1, 4), en_heap = fl.chance(1, 2), en_prefill = fl.chance(1, 3), en_cond = fl.chance(1, 6);
     const bool en_clock = root.fork("clock").chance(1, 2);
+    const bool en_kill = root.fork("kill").chance(1, 3);
     long outv = (long)wl.below(6);
     for(int i = 0; i < nruns; i++)
     {
@@ -3358,7 +3488,27 @@ Plan gen_c20(u64 seed, const std::string& tier)
                 p.ops.push_back(d);
             }
         }
+        bool killed_here = false;
+        if(en_kill)
+        {
+            // crash and restart: the invocation dies at a seeded call of its trace (process kill or power loss)
+            sim::Rng kr = root.fork("kill").fork((u64)i + 1);
+            if(kr.chance(1, 2))
+            {
+                const Ref& ref = reference(s, outv);
+                Op k;
+                k.name = "kill";
+                k.a = {(long long)kr.below(ref.trace.size() + 1), (long long)kr.below(2), (long long)(kr.next() >> 20)};
+                p.ops.push_back(k);
+                killed_here = true;
+            }
+        }
         p.ops.push_back(run_op(s, outv, wl.chance(1, 8) ? (long)wl.range(1, 2) : 0));
+        if(killed_here && last)
+        {
+            // the restart: same schema, same directory, nothing in the way
+            p.ops.push_back(run_op(s, outv, 0));
+        }
         {
             // a quarter of the runs of a history spell the schema path differently (drawn from a fork)
             sim::Rng sp = root.fork("input-spelling").fork((u64)p.ops.size());
